@@ -17,9 +17,23 @@ now wrong, if there is one):
     ("after"): refusals must stay parameter errors, factors must stay the SI factors and equal to the first answer;
   * the MATERIAL oracle: real `pygaps.Material` objects (all with the same name) built by random histories of constructor
     keywords, setters (incl. the ignored falsy values), `to_dict` round trips, changed between conversions, passed through
-    c_material and get_prop, compared with the SI factor for the numbers that were put in and with the Lean model of the store.
+    c_material and get_prop, compared with the SI factor for the numbers that were put in and with the Lean model of the store;
+  * the STATED-TEMPERATURE oracle ("... at the stated temperature"; model Model/UnitsThermo.lean, theorems Props/C01/Temperature.lean:
+    a memory keyed on a function of the temperature is exposed by two consecutive requests): on the real, shared adsorbate
+    objects, clusters of NEAR-DUPLICATE temperatures (a temperature of the enumeration or a new random one; neighbours 1e-6 …
+    5e-2 K away, its roundings to 0 … 4 decimals, floor, single precision; the same number as float / numpy.float64 / numpy.float32 /
+    int / numpy.int64) are visited twice in shuffled order; at every visit every leaf that reads a constant at T is asked —
+    saturation_pressure / pressure_saturation, the four density accessors, c_pressure absolute <-> relative / relative % in
+    both directions, c_loading over the 12 ordered pairs of physical bases and fraction / percent, PointIsotherm accessors —
+    with scalars, arrays and Series; every reply against the SI factor with constants from CoolProp states of the harness's own
+    at the EXACT temperature (rel. 1e-11.  Measured over the 8 fluids between 5 % and 90 % of triple … critical: p0 and the vapour
+    densities move by 1.3e-2 … 1.7e-1 per K (relative), the liquid densities by 2e-4 … 2.5e-2 per K (water near its density
+    maximum at 277 K less), so a neighbour 1e-6 K away is 1e-8 (2e-10) off, 3 (1) orders of magnitude above the tolerance; on the
+    unchanged tree the replies are bitwise those of a fresh CoolProp state, whatever the type of the temperature), and a sample
+    against the Lean model on a table of the stated temperature and its neighbours.
 """
 import itertools
+import math
 from decimal import Decimal
 from fractions import Fraction as Fr
 
@@ -106,8 +120,22 @@ class Props:
             self.md = None if mat is None or mat.density is None else frac(mat.density)
             self.mm = None if mat is None or mat.molar_mass is None else frac(mat.molar_mass)
 
+    @classmethod
+    def of_constants(cls, name, temp, known, matknown=(None, None)):
+        """the SI oracle for given constants, WITHOUT touching an adsorbate object (no accessor is called)"""
+        self = cls.__new__(cls)
+        self.name, self.ads, self.mat, self.temp, self.light, self.acc, self.known = name, None, None, temp, True, {}, True
+        self.psat = None if known.get("psat") is None else frac(known["psat"])
+        self.q = {k: (None if known.get(k) is None else frac(known[k])) for k in QORDER}
+        self.md, self.mm = [None if x is None else frac(x) for x in matknown]
+        return self
+
     def env_tokens(self):
         return [tok(self.q[k]) for k in QORDER] + [tok(self.md), tok(self.mm)]
+
+    def point_tokens(self):
+        """<T> <psat> <gasDensity> <liquidDensity> <molarMass> <gasMolarDensity> <liquidMolarDensity> (driver ops tP/tL/tS/tQ)"""
+        return [qstr(self.temp), tok(self.psat)] + [tok(self.q[k]) for k in QORDER]
 
     # ---- SI spec
     def g_l(self, b):
@@ -590,6 +618,173 @@ def run(ck):
     # ------------------------------------------------------------------ run the implementation on the enumeration
     first = [call(c[1]) for c in cases]
 
+    # ------------------------------------------------------------------ STATED-TEMPERATURE oracle: near-duplicate temperatures
+    # Props/C01/Temperature.lean: an implementation that keeps what the backend delivered under a key computed from the temperature
+    # answers wrongly exactly when two temperatures with one key have different constants, and then two CONSECUTIVE requests
+    # expose it.  Clusters of temperatures that any such key merges, on the shared adsorbate objects, every leaf at every visit.
+    temp_lines = []     # (line builder, outcome, vin, desc): sampled for the Lean model afterwards
+    own_consts = {}     # (CoolProp name, exact float) -> Props of constants of our own states
+
+    def consts_at(name, tf):
+        key = (name, tf)
+        if key not in own_consts:
+            own_consts[key] = Props.of_constants(f"{name}@{tf!r}", tf, coolprop_constants(COOLPROP_NAME[name], tf))
+        return own_consts[key]
+
+    def t_repr(t):
+        return f"numpy.{type(t).__name__}({t.item()!r})" if isinstance(t, np.generic) else repr(t)
+
+    def cluster_of(t0, lo, hi):
+        """[(temperature object as passed, its exact float value)]: t0 first, then what a lossy key of the temperature merges with it"""
+        cand = [t0 + 10 ** rng.uniform(-6, math.log10(5e-2)) * rng.choice((1, -1)) for _ in range(ck.n(4, 10))]
+        cand += [round(t0, nd) for nd in (0, 1, 2, 3, 4)] + [float(math.floor(t0)), float(np.float32(t0))]
+        cand += [round(t0, 2) + rng.choice((1, -1)) * rng.uniform(1e-4, 4.9e-3)]      # the same two decimals from the other side
+        out, seen = [(t0, float(t0))], {float(t0)}
+        for t in cand:
+            if lo < t < hi and t not in seen:
+                seen.add(t)
+                out.append((t, t))
+        # the same number in the other types a temperature arrives in
+        typed = [np.float64(t0), np.float32(t0)]
+        for t, tf in list(out):
+            if float(tf).is_integer():
+                typed += [int(tf), np.int64(int(tf))]
+        for t in typed:
+            if lo < float(t) < hi:
+                out.append((t, float(t)))
+        return out
+
+    LPHYS = list(LTABLE)
+    P0i, L0i = [0.1, 0.2, 0.5, 0.9], [1.0, 2.0, 3.0, 3.5]
+
+    def leaf_requests(name, ads, t, tf):
+        """every entry point that reads a constant of the adsorbate at the temperature `t` (exact value `tf`):
+        (entry, leaf, desc, thunk, SI factor as a function of the constants, vin, line builder) — vin None: the reply is the constant itself"""
+        out = []
+        tr = t_repr(t)
+        for rel in PMODES[1:]:
+            u = rng.choice(list(PA))
+            for mf, mt, uf, ut in (("absolute", rel, u, None), (rel, "absolute", None, u)):
+                v, vn = vk()
+                out.append(("c_pressure", "saturation_pressure", f"c_pressure({vn}, {mf!r}, {mt!r}, {uf!r}, {ut!r}, <{name}>, {tr})",
+                            (lambda v=v, mf=mf, mt=mt, uf=uf, ut=ut: c_pressure(v, mf, mt, uf, ut, ads, t)),
+                            (lambda k, mf=mf, mt=mt, uf=uf, ut=ut: k.scale_p(mf, uf) / k.scale_p(mt, ut)), v,
+                            (lambda tbl, mf=mf, mt=mt, uf=uf, ut=ut: " ".join(["tP"] + tbl + [qstr(tf), "1/1", mf, mt, tok(uf), tok(ut)]))))
+        u = rng.choice(list(PA) + [None])
+        fn = rng.choice(["saturation_pressure", "pressure_saturation"])
+        out.append(("saturation_pressure", "saturation_pressure", f"<{name}>.{fn}({tr}, unit={u!r})",
+                    (lambda u=u, fn=fn: getattr(ads, fn)(t, unit=u)), (lambda k, u=u: k.psat / (PA[u] if u else 1)), None,
+                    (lambda tbl, u=u: " ".join(["tS"] + tbl + [qstr(tf), tok(u)]))))
+        for q in ("gas_density", "liquid_density", "gas_molar_density", "liquid_molar_density"):
+            out.append(("accessor", q, f"<{name}>.{q}({tr})", (lambda q=q: getattr(ads, q)(t)), (lambda k, q=q: k.q[q]), None,
+                        (lambda tbl, q=q: " ".join(["tQ"] + tbl + [qstr(tf), q]))))
+        pairs = [((bf, rng.choice(list(LTABLE[bf]))), (bt, rng.choice(list(LTABLE[bt])))) for bf in LPHYS for bt in LPHYS if bf != bt]
+        for fr in ("fraction", "percent"):
+            b = rng.choice(LPHYS)
+            pr = ((fr, None), (b, rng.choice(list(LTABLE[b]))))
+            pairs.append(pr if rng.random() < 0.5 else pr[::-1])
+        for (bf, uf), (bt, ut) in pairs:
+            fr = bf in ("fraction", "percent") or bt in ("fraction", "percent")
+            mb, mu = rng.choice(MATS) if fr else rng.choice([("mass", "g"), (None, None)])
+            v, vn = vk()
+            leafq = "+".join(sorted({bf, bt} - {"fraction", "percent"})) + (f"|material:{mb}" if fr else "")
+            out.append(("c_loading", leafq, f"c_loading({vn}, {bf!r}, {bt!r}, {uf!r}, {ut!r}, <{name}>, {tr}, {mb!r}, {mu!r})",
+                        (lambda v=v, bf=bf, bt=bt, uf=uf, ut=ut, mb=mb, mu=mu: c_loading(v, bf, bt, uf, ut, ads, t, mb, mu)),
+                        (lambda k, bf=bf, bt=bt, uf=uf, ut=ut, mb=mb, mu=mu: k.scale_l(bf, uf, mb, mu) / k.scale_l(bt, ut, mb, mu)), v,
+                        (lambda tbl, bf=bf, bt=bt, uf=uf, ut=ut, mb=mb, mu=mu:
+                         " ".join(["tL"] + tbl + ["~", "~", qstr(tf), "1/1", bf, bt, tok(uf), tok(ut), tok(mb), tok(mu)]))))
+        return out
+
+    def iso_requests(name, t):
+        """two isotherms of the same gas at neighbouring temperatures share the adsorbate object: the accessor glue at `t`"""
+        iso_t = pg.PointIsotherm(pressure=P0i, loading=L0i, material="pgv_iso_mat", adsorbate=name, temperature=t,
+                                 pressure_mode="absolute", pressure_unit="bar", loading_basis="molar", loading_unit="mmol",
+                                 material_basis="mass", material_unit="g", temperature_unit="K")
+        tr = t_repr(t)
+        m = rng.choice(PMODES[1:])
+        b = rng.choice(["mass", "volume_gas", "volume_liquid", "fraction", "percent"])
+        u = None if b in ("fraction", "percent") else rng.choice(list(LTABLE[b]))
+        return [("iso.pressure", "saturation_pressure",
+                 f"PointIsotherm({name}, bar, mmol/g, temperature={tr}).pressure(pressure_mode={m!r})",
+                 (lambda: iso_t.pressure(pressure_mode=m)), (lambda k: k.scale_p("absolute", "bar") / k.scale_p(m, None)),
+                 np.array(P0i), None),
+                ("iso.loading", b,
+                 f"PointIsotherm({name}, bar, mmol/g, temperature={tr}).loading(loading_basis={b!r}, loading_unit={u!r})",
+                 (lambda: iso_t.loading(loading_basis=b, loading_unit=u)),
+                 (lambda k: k.scale_l("molar", "mmol", "mass", "g") / k.scale_l(b, u, "mass", "g")), np.array(L0i), None)]
+
+    def fits(o, vin, fac):
+        try:
+            return o[0] == "ok" and (value_matches(o[1], vin, fac) if vin is not None
+                                     else (np.ndim(o[1]) == 0 and close(o[1], fac, rel=1e-11)))
+        except (TypeError, ValueError, OverflowError):
+            return False
+
+    near_t = {"clusters": 0, "temperatures": 0, "requests": 0}
+    try:
+        if not iso_rqs:
+            pg.Material("pgv_iso_mat", store=True, density=2.3, molar_mass=321.0)
+    except Exception:  # noqa
+        pass
+    bases = [(n, float(t)) for n, t, _ in real_ctx]
+    for n in sorted({n for n, _, _ in real_ctx}):
+        lo, hi = coolprop_range(COOLPROP_NAME[n])
+        bases.append((n, lo + (hi - lo) * rng.uniform(0.05, 0.9)))
+    if not thorough:
+        # quick tier, per adsorbate: a fixed and a random temperature of the enumeration (their constants were read long ago) and a new one
+        keep = {}
+        for n, t0 in bases:
+            keep.setdefault(n, []).append(t0)
+        bases = [(n, t0) for n, ts in keep.items() for t0 in (ts[:1] + rng.sample(ts[1:-1], min(1, len(ts[1:-1]))) + ts[-1:])]
+    for name, t0 in bases:
+        ads = pg.Adsorbate.find(name)
+        lo, hi = coolprop_range(COOLPROP_NAME[name])
+        cluster = cluster_of(t0, lo, hi)
+        ctemps = list(dict.fromkeys(x[1] for x in cluster))
+        near_t["clusters"] += 1
+        near_t["temperatures"] += len(ctemps)
+        visits = []
+        for _ in range(2):       # every temperature is asked again after the others have been
+            rest = list(cluster)
+            rng.shuffle(rest)
+            visits += rest
+        before, prev_tf = None, None
+        for t, tf in visits:
+            kx = consts_at(name, tf)
+            try:
+                rqs = leaf_requests(name, ads, t, tf)
+                rng.shuffle(rqs)
+                if rng.random() < 0.3:
+                    rqs += iso_requests(name, t)
+            except Exception as e:  # noqa  an isotherm at a temperature in range could not be built: a failing input, not a crash
+                groups.add(("neartemp-raised", type(e).__name__), {"fn": "stated-temperature", "raised": type(e).__name__},
+                           {"what": f"{type(e).__name__}: {e}"[:300], "adsorbate": name, "temperature": t_repr(t)})
+                continue
+            for entry, leafq, desc, thunk, fac_of, vin, builder in rqs:
+                o = call(thunk)
+                near_t["requests"] += 1
+                ck.count(("neartemp", name, entry, leafq, desc), nontrivial=True,
+                         bucket="stated-temperature:" + entry + ":" + (o[0] if o[0] == "ok" else o[1]))
+                factor = fac_of(kx)
+                if not fits(o, vin, factor):
+                    det = {"call": desc, "implementation": short(o), "stated_temperature": repr(tf),
+                           "expected_" + ("factor_SI" if vin is not None else "value_SI"): str(float(factor)),
+                           "constants_from": "CoolProp states of the harness's own at exactly the stated temperature",
+                           "preceded_by": before}
+                    # which temperature's constants were used instead (the evidence of a remembered value)
+                    for tf2 in ctemps:
+                        if tf2 != tf and fits(o, vin, fac_of(consts_at(name, tf2))):
+                            det["reply_is_the_SI_value_for_the_temperature"] = repr(tf2)
+                            det["kelvin_between_the_two"] = abs(tf2 - tf)
+                            break
+                    groups.add(("neartemp", entry, leafq.split("|")[0]),
+                               {"fn": "stated-temperature", "entry": entry, "quantity": leafq.split("|")[0], "adsorbate": name}, det)
+                if builder is not None:
+                    temp_lines.append((builder, name, tf, prev_tf, ctemps, o, vin, desc))
+                before = desc
+            prev_tf = tf
+    groups.flush()
+
     # ------------------------------------------------------------------ HISTORY oracle, phase "after"
     # blocks in shuffled order: [valid conversion of (a, b) through every entry point of its own table] [the same strings against
     # every other table] [a valid conversion again: a refusal must not be remembered either], mixed with re-executions of earlier
@@ -747,7 +942,18 @@ def run(ck):
     run_iso("after")
 
     # ------------------------------------------------------------------ model replies, compare
-    all_lines = [c[0] for c in cases] + [x[0] for x in xlines] + [x[0] for x in mat_lines]
+    # a sample of the stated-temperature requests for the model: the table holds the stated temperature, the one visited before
+    # and two more of the cluster (the lookup of the model is by equality of exact rationals)
+    t_sample = rng.sample(temp_lines, min(len(temp_lines), ck.n(300, 2500)))
+    t_lines = []
+    for builder, name, tf, prev_tf, ctemps, o, vin, desc in t_sample:
+        others = [x for x in ctemps if x != tf and x != prev_tf]
+        pick = ([prev_tf] if prev_tf is not None and prev_tf != tf else []) + rng.sample(others, min(2, len(others)))
+        keys = list(dict.fromkeys([tf] + pick))
+        rng.shuffle(keys)
+        tbl = [str(len(keys))] + [x for k in keys for x in consts_at(name, k).point_tokens()]
+        t_lines.append((builder(tbl), o, vin, desc, builder([f"<table:{len(keys)}-temperatures>"])))
+    all_lines = [c[0] for c in cases] + [x[0] for x in xlines] + [x[0] for x in mat_lines] + [x[0] for x in t_lines]
     replies = None
     try:
         replies = ck.drive("Units", all_lines)
@@ -758,7 +964,7 @@ def run(ck):
     def disagree(line, o, reply):
         nonlocal n_dis
         n_dis += 1
-        if n_dis <= 3 or (n_dis <= 12 and line.split()[0] in ("cU", "cS", "cMo", "mG")):
+        if n_dis <= 3 or (n_dis <= 12 and line.split()[0] in ("cU", "cS", "cMo", "mG", "tP", "tL", "tS", "tQ")):
             ck.broken.append({"step": "correspondence Model/Units.lean", "what": {"request": line, "fn": line.split()[0], "impl": short(o), "model": reply}})
 
     def agrees(reply, o, vin=None):
@@ -806,6 +1012,10 @@ def run(ck):
         for j, (line, o, desc, isprop) in enumerate(mat_lines):
             if not agrees(replies[base + j], o):
                 disagree(line + "   # " + desc, o, replies[base + j])
+        base += len(mat_lines)
+        for j, (line, o, vin, desc, brief) in enumerate(t_lines):
+            if not agrees(replies[base + j], o, vin=vin):
+                disagree(brief + "   # " + desc, o, replies[base + j])
 
     # ------------------------------------------------------------------ arrays map pointwise, index preserved
     cx = contexts[0]
@@ -860,12 +1070,17 @@ def run(ck):
                       "the valid conversion of the same pair and after the whole enumeration, every mode/basis name against the "
                       "other two mode tables, re-execution of earlier conversions (same answer, SI factor); MATERIAL: real "
                       "pygaps.Material objects with random histories of keywords/setters/to_dict through c_material and get_prop; "
+                      "STATED TEMPERATURE: per real adsorbate clusters of near-duplicate temperatures (1e-6 … 5e-2 K apart, roundings, "
+                      "floor, single precision, int / numpy types of the same number), visited twice in shuffled order, every leaf "
+                      "that reads a constant at T (saturation pressure, 4 densities, c_pressure both directions, c_loading 12 basis "
+                      "pairs + fraction/percent, isotherm accessors) against own CoolProp constants at the exact temperature; "
                       "non-trivial = accepted conversion between two different representations; distinct = distinct (function, "
                       "from, to, material representation[, context])")
     ck.cov["correspondence_disagreements"] = n_dis
     ck.cov["history"] = {"unit_pairs": len(blocks), "requests_per_phase_foreign": sum(len(b[4]) for b in blocks) + len(basis_rqs),
                          "isotherm_accessor_requests": len(iso_rqs), "material_object_requests": len(mat_lines),
                          "random_temperature_contexts": [c.name for c in contexts if c.light]}
+    ck.cov["stated_temperature"] = dict(near_t, model_lines=len(t_lines))
     ck.assumptions += [
         "thermodynamic consistency rho = rho_bar*M of the adsorbate constants is measured (CoolProp), not proved",
         "IEEE rounding: implementation compared with exact rational model/spec at rel. 1e-11",
